@@ -140,6 +140,12 @@ pub fn build_crash_context(cc: &Value, report: &Value, tid: i32) -> (CrashContex
     si.ssi_signo = sig.and_then(|s| s.get("signo")).and_then(num).unwrap_or(11) as u32;
     si.ssi_code = sig.and_then(|s| s.get("code")).and_then(num).map(|x| x as i64 as i32).unwrap_or(1);
     si.ssi_addr = sig.and_then(|s| s.get("addr")).map(|a| resolve(a, report)).unwrap_or(mix(seed + 999));
+    // every other field gets a distinct non-zero decoy: a record built from the wrong field cannot equal the supplied one
+    let d = |k: u64| mix(seed * 7919 + 5000 + k) | 0x0101_0101;
+    si.ssi_errno = d(1) as i32; si.ssi_pid = d(2) as u32; si.ssi_uid = d(3) as u32; si.ssi_fd = d(4) as i32; si.ssi_tid = d(5) as u32;
+    si.ssi_band = d(6) as u32; si.ssi_overrun = d(7) as u32; si.ssi_trapno = d(8) as u32; si.ssi_status = d(9) as i32; si.ssi_int = d(10) as i32;
+    si.ssi_ptr = d(11); si.ssi_utime = d(12); si.ssi_stime = d(13); si.ssi_addr_lsb = d(14) as u16; si.ssi_syscall = d(15) as i32;
+    si.ssi_call_addr = d(16); si.ssi_arch = d(17) as u32;
     supplied.insert("signo".into(), json!(si.ssi_signo));
     supplied.insert("code".into(), json!(si.ssi_code as u32));
     supplied.insert("fault_addr".into(), json!(format!("{:x}", si.ssi_addr)));
